@@ -78,7 +78,7 @@ enum Verdict { Ok(String, usize), Error, Panic }
 /// Decode with the real decoder (under catch_unwind and allocation tracking) and
 /// re-encode the value: `ok <hex> rest=<n>` / `error` / `panic`.
 fn real_dec<T>(ty: &str, buf: &[u8], rep: &mut Report, op: &str) -> String
-where T: Decodable + Encodable + Default + PartialEq + std::fmt::Debug + Send + Sync {
+where T: Decodable + Encodable + Default + Send + Sync {
     *CURRENT.lock().unwrap() = op.to_string();
     MAX_REQ.with(|m| m.set(0));
     let b = buf.to_vec();
@@ -174,7 +174,7 @@ fn rand_commit(rng: &mut Rng) -> VaultCommit { VaultCommit(CommitHash(rand_hash(
 struct Ctx { ops: Vec<String>, imp: Vec<String> }
 
 fn feed<T>(ctx: &mut Ctx, rep: &mut Report, ty: &str, bytes: &[u8], kind: &str)
-where T: Decodable + Encodable + Default + PartialEq + std::fmt::Debug + Send + Sync {
+where T: Decodable + Encodable + Default + Send + Sync {
     let op = format!("codec dec {} {}", ty, if bytes.is_empty() { "-".to_string() } else { hex::encode(bytes) });
     let out = real_dec::<T>(ty, bytes, rep, &op);
     rep.count(&format!("{}:{}:{}", ty, kind, out.split(' ').next().unwrap()));
@@ -187,6 +187,12 @@ where T: Decodable + Encodable + Default + PartialEq + std::fmt::Debug + Send + 
 fn exercise<T>(ctx: &mut Ctx, rep: &mut Report, rng: &mut Rng, ty: &str, v: &T, thorough: bool)
 where T: Decodable + Encodable + Default + PartialEq + std::fmt::Debug + Send + Sync {
     let enc = roundtrip(ty, v, rep);
+    exercise_bytes::<T>(ctx, rep, rng, ty, enc, thorough);
+}
+
+/// mutation streams around one valid encoding
+fn exercise_bytes<T>(ctx: &mut Ctx, rep: &mut Report, rng: &mut Rng, ty: &str, enc: Vec<u8>, thorough: bool)
+where T: Decodable + Encodable + Default + Send + Sync {
     feed::<T>(ctx, rep, ty, &enc, "valid");
     // trailing bytes are left unread
     let mut ext = enc.clone(); ext.extend_from_slice(&[0xaa, 0xbb]);
@@ -314,6 +320,37 @@ pub fn run(cli: &Cli) {
         let l = rand_len(&mut rng);
         let rec = EventRecord::new(rand_time(&mut rng), CommitHash(rand_hash(&mut rng)), CommitHash(rand_hash(&mut rng)), rand_bytes(&mut rng, l));
         exercise(&mut ctx, &mut rep, &mut rng, "EventRecord", &rec, thorough);
+        // vault header and contents
+        {
+            use sos_core::crypto::{Cipher, KeyDerivation, Seed};
+            use sos_vault::{Header, Summary, Vault, VaultMeta};
+            let cipher = match rng.below(3) { 0 => Cipher::XChaCha20Poly1305, 1 => Cipher::AesGcm256, _ => Cipher::X25519 };
+            let kdf = if rng.chance(1, 2) { KeyDerivation::Argon2Id } else { KeyDerivation::BalloonHash };
+            let flags = VaultFlags::from_bits(rng.below(1024)).unwrap();
+            let summary = Summary::new(rng.below(3) as u16 + 1, VaultId::from(rand_uuid(&mut rng)), rand_string(&mut rng), cipher.clone(), kdf.clone(), flags.clone());
+            exercise(&mut ctx, &mut rep, &mut rng, "Summary", &summary, thorough);
+            let mut header = Header::new(VaultId::from(rand_uuid(&mut rng)), rand_string(&mut rng), cipher.clone(), kdf.clone(), flags.clone());
+            if rng.chance(2, 3) { header.set_salt(Some(KeyDerivation::generate_salt().to_string())); }
+            if rng.chance(1, 2) { let mut sd = [0u8; 32]; sd.copy_from_slice(&rand_bytes(&mut rng, 32)); header.set_seed(Some(Seed(sd))); }
+            if rng.chance(2, 3) { header.set_meta(Some(rand_aead(&mut rng))); }
+            exercise(&mut ctx, &mut rep, &mut rng, "Header", &header, thorough);
+            let mut vault = Vault::new(VaultId::from(rand_uuid(&mut rng)), rand_string(&mut rng), cipher, kdf, flags);
+            *vault.header_mut() = header.clone();
+            for _ in 0..rng.below(4) { vault.insert_entry(SecretId::from(rand_uuid(&mut rng)), rand_commit(&mut rng)); }
+            exercise(&mut ctx, &mut rep, &mut rng, "Vault", &vault, thorough);
+            // VaultMeta has no PartialEq: compare its fields
+            let mut vm = VaultMeta::default();
+            vm.set_description(rand_string(&mut rng));
+            let rt_ = rt();
+            let (enc1, back) = rt_.block_on(async { let a = sos_core::encode(&vm).await.expect("encode"); std::thread::sleep(std::time::Duration::from_millis(2)); let b: Result<VaultMeta, _> = sos_core::decode(&a).await; (a, b) });
+            match back {
+                Ok(w) => if w.description() != vm.description() || w.date_created() != vm.date_created() {
+                    rep.spec_fail("roundtrip-differs:VaultMeta", json!({"bytes": hex::encode(&enc1), "created": vm.date_created().to_rfc3339().unwrap_or_default(), "decoded_created": w.date_created().to_rfc3339().unwrap_or_default()}), "decode(encode v) != v");
+                },
+                Err(e) => rep.spec_fail("roundtrip-error:VaultMeta", json!({"bytes": hex::encode(&enc1)}), &e.to_string()),
+            }
+            exercise_bytes::<VaultMeta>(&mut ctx, &mut rep, &mut rng, "VaultMeta", enc1, thorough);
+        }
         if k == 0 {
             rep.sample(json!({"op": ctx.ops[0], "impl": ctx.imp[0]}));
             rep.sample(json!({"op": ctx.ops[ctx.ops.len() / 2], "impl": ctx.imp[ctx.imp.len() / 2]}));
@@ -338,7 +375,7 @@ pub fn run(cli: &Cli) {
         if ctx.ops.len() > 30_000 { flush(&mut ctx, &mut rep); }
     }
     flush(&mut ctx, &mut rep);
-    rep.notes.push("modelled_types: DateTime CommitHash CommitProof CommitState Comparison AeadPack VaultEntry VaultCommit EventKind WriteEvent AccountEvent DeviceEvent(Revoke) FileEvent EventRecord String".into());
+    rep.notes.push("modelled_types: DateTime CommitHash CommitProof CommitState Comparison AeadPack VaultEntry VaultCommit EventKind WriteEvent AccountEvent DeviceEvent(Revoke) FileEvent EventRecord String VaultMeta Auth Summary SharedAccess(no recipients) Header Contents Vault".into());
     rep.notes.push("tested_only_types (real round-trip, no Lean model yet): DeviceEvent::Trust (serde_json payload)".into());
     rep.rule = format!("{n} rounds; per round one structure-aware value of every modelled type and every event variant (boundary timestamps, empty/long buffers, non-ASCII names, all flag subsets), \
         each fed as valid encoding, with trailing bytes, truncated at every offset, bit-flipped, with hostile length fields, spliced; plus kind-tag substitution over the u16 space and short random strings into every decoder; \
@@ -346,7 +383,7 @@ pub fn run(cli: &Cli) {
     rep.write(&cli.out);
 }
 
-const TYPES: [&str; 12] = ["DateTime", "CommitProof", "CommitState", "Comparison", "AeadPack", "VaultEntry", "VaultCommit", "WriteEvent", "AccountEvent", "DeviceEvent", "FileEvent", "EventRecord"];
+const TYPES: [&str; 16] = ["DateTime", "CommitProof", "CommitState", "Comparison", "AeadPack", "VaultEntry", "VaultCommit", "WriteEvent", "AccountEvent", "DeviceEvent", "FileEvent", "EventRecord", "VaultMeta", "Summary", "Header", "Vault"];
 
 fn dispatch(ctx: &mut Ctx, rep: &mut Report, ty: &str, b: &[u8], kind: &str) {
     match ty {
@@ -362,6 +399,10 @@ fn dispatch(ctx: &mut Ctx, rep: &mut Report, ty: &str, b: &[u8], kind: &str) {
         "DeviceEvent" => feed::<DeviceEvent>(ctx, rep, ty, b, kind),
         "FileEvent" => feed::<FileEvent>(ctx, rep, ty, b, kind),
         "EventRecord" => feed::<EventRecord>(ctx, rep, ty, b, kind),
+        "VaultMeta" => feed::<sos_vault::VaultMeta>(ctx, rep, ty, b, kind),
+        "Summary" => feed::<sos_vault::Summary>(ctx, rep, ty, b, kind),
+        "Header" => feed::<sos_vault::Header>(ctx, rep, ty, b, kind),
+        "Vault" => feed::<sos_vault::Vault>(ctx, rep, ty, b, kind),
         _ => {}
     }
 }
